@@ -668,7 +668,7 @@ fn register_step(n: usize) {
 macro_rules! register_inst {
     ($name:ident, $n:expr) => {
         vharness! {
-            //@ props: C06
+            //@ props: C06 C08
             //@ env: VERIF_MVEC_CAP=1
             //@ tier: quick
             //@ functions: v5::shared::MqttShared::{wait_response, wait_publish_response, enable_streaming, check_streaming}, v5 Codec::encodev (real, through the IoRef model)
@@ -921,7 +921,7 @@ vharness! {
 }
 
 vharness! {
-    //@ props: C06 C05 C13 C14
+    //@ props: C06 C05 C13 C14 C08
     //@ env: VERIF_MVEC_CAP=1
     //@ tier: quick
     //@ expect: fail
@@ -938,6 +938,130 @@ vharness! {
             let res = sh.pkt_ack(mk_ack(AckType::Publish, id));
             assert!(res.is_err() || rxs[0].as_ref().map_or(false, |r| peek_unit(r).is_none()));
             std::mem::forget((rx, rxs));
+            std::mem::forget(sh);
+        })
+    }
+}
+
+
+// =============================================================================================
+// streamed PUBLISH gate (C08) and the DISCONNECT latch (C15)
+fn chunk_of(n: usize) -> Bytes {
+    match n {
+        0 => Bytes::new(),
+        1 => Bytes::from_static(b"a"),
+        2 => Bytes::from_static(b"ab"),
+        _ => Bytes::from_static(b"abc"),
+    }
+}
+vharness! {
+    //@ props: C08
+    //@ env: VERIF_MVEC_CAP=1
+    //@ tier: quick
+    //@ stubs: yes
+    //@ functions: v5::shared::MqttShared::{encode_publish, encode_packet, encode_publish_payload, check_streaming, enable_streaming, is_streaming, force_close}, v5 Codec::encodev (REAL: Publish / PayloadChunk arms and its `encoding_payload` counter; the non-PUBLISH packet encoders are stubbed as unreachable)
+    //@ bounds: a streamed QoS 0 PUBLISH with declared payload size 1..=3, first chunk absent; then up to two chunks of 0..=3 bytes each, with attempts to send another packet in between
+    //@ assumes: none
+    //@ mem: 24  timeout: 1500
+    //@ desc: while payload bytes are owed every other packet is refused (ExpectPayload) and writes nothing; chunks are written as long as they fit the declared size; a chunk that would exceed it writes nothing and aborts the connection; when exactly the declared size has been written other packets are accepted again; a chunk without a streamed PUBLISH is refused
+    #[kani::stub(<codec::Packet as codec::EncodeLtd>::encode, stub_packet_encode)]
+    #[kani::stub(<codec::Packet as codec::EncodeLtd>::encoded_size, stub_packet_size)]
+    fn sh5_streaming_gate() unwind(6) {
+        vio::with_io(move |io| {
+            let sh = new_shared(io);
+            // a chunk with nothing owed is refused
+            assert!(matches!(sh.encode_publish_payload(chunk_of(1)), Err(error::EncodeError::UnexpectedPayload)));
+            assert!(io.bytes_written() == 0);
+            let size = vk::any_u32();
+            vk::assume(size >= 1 && size <= 3);
+            let mut p = codec::Publish::default();
+            p.topic = ntex_bytes::ByteString::from_static("t");
+            p.payload_size = size;
+            assert!(sh.encode_publish(p, None).is_ok());
+            let hdr = io.bytes_written();
+            assert!(hdr > 0 && sh.is_streaming());
+            let mut owed = size;
+            let mut k = 0;
+            let mut aborted = false;
+            while k < 2 && owed > 0 && !aborted {
+                // nothing else may be interleaved
+                let mut q = codec::Publish::default();
+                q.payload_size = 0;
+                let before = io.bytes_written();
+                assert!(matches!(sh.encode_publish(q, None), Err(error::EncodeError::ExpectPayload)), "another PUBLISH accepted inside a streamed payload");
+                assert!(io.bytes_written() == before && io.torn() == 0);
+                let n = vk::any_len(3);
+                let r = sh.encode_publish_payload(chunk_of(n));
+                if n as u32 > owed {
+                    assert!(matches!(r, Err(error::EncodeError::OverPublishSize)));
+                    assert!(io.bytes_written() == before, "over-long chunk partly written");
+                    assert!(io.terminated(), "over-long payload: connection must be aborted, not continued");
+                    aborted = true;
+                } else {
+                    owed -= n as u32;
+                    assert!(r == Ok(owed > 0), "chunk accounting out of step with the declared size");
+                    assert!(io.bytes_written() == before + n);
+                    assert!(sh.is_streaming() == (owed > 0));
+                }
+                k += 1;
+            }
+            if owed == 0 {
+                // exactly the declared size is on the wire: the connection is usable again
+                assert!(io.bytes_written() == hdr + size as usize);
+                let mut q = codec::Publish::default();
+                q.payload_size = 0;
+                assert!(sh.encode_publish(q, None).is_ok(), "connection unusable after a completed streamed payload");
+            }
+            vcover!(owed == 0 && k == 2, "completed with two chunks");
+            vcover!(aborted, "aborted on an over-long chunk");
+            std::mem::forget(sh);
+        })
+    }
+}
+
+vharness! {
+    //@ props: C15
+    //@ env: VERIF_MVEC_CAP=1
+    //@ tier: quick
+    //@ stubs: yes
+    //@ functions: v5::shared::MqttShared::{close, is_disconnect_sent, is_closed, clear_queues}
+    //@ bounds: ARBITRARY flag byte (every combination incl. DISCONNECT already sent / received), io object open, shutting down or closed; two close() calls in a row, each with or without a DISCONNECT packet
+    //@ assumes: v5 encoder abstracted to first byte + packet id
+    //@ mem: 12  timeout: 900
+    //@ desc: the DISCONNECT latch: close() writes a DISCONNECT only if none was sent before on this connection and the io object is not closed, sets the latch, and a second close() writes nothing: at most one DISCONNECT per connection through this path
+    #[kani::stub(<codec::Codec as Encoder>::encodev, stub_encodev5)]
+    fn sh5_disconnect_once() unwind(5) {
+        vio::with_io(move |io| {
+            let sh = new_shared(io);
+            let bits = vk::any_u8();
+            sh.flags.set(Flags::from_bits_retain(bits));
+            let sent_before = bits & Flags::DISCONNECT.bits() != 0;
+            let st = vk::any_u8();
+            vk::assume(st < 3);
+            if st >= 1 {
+                io.ioref().close();
+            }
+            if st == 2 {
+                io.finish_shutdown();
+            }
+            let with1 = vk::any_bool();
+            let with2 = vk::any_bool();
+            sh.close(if with1 { Some(codec::Disconnect::default()) } else { None });
+            let n1 = io.frames();
+            sh.close(if with2 { Some(codec::Disconnect::default()) } else { None });
+            let n2 = io.frames();
+            assert!(n2 <= 1, "more than one DISCONNECT written");
+            if sent_before || st != 0 {
+                assert!(n2 == 0, "DISCONNECT written after one was already sent / on a closing connection");
+            }
+            if n1 == 1 {
+                assert!(io.frame_first(0) == 0xE0 && with1);
+            }
+            assert!(io.shutdown_requested());
+            if with1 && st != 2 {
+                assert!(sh.flags.get().contains(Flags::DISCONNECT), "latch not set by the first DISCONNECT attempt");
+            }
+            vcover!(n2 == 1, "exactly one DISCONNECT");
             std::mem::forget(sh);
         })
     }
